@@ -267,6 +267,8 @@ choose(void)
         for (int i = 0; i < pct_n; ++i)
             if (pct_change[i] == steps && enabled(&T[cur]))
                 pct_prio[cur] = pct_low--;
+        if (cfg.pct_aging && steps % cfg.pct_aging == 0 && enabled(&T[cur]))
+            pct_prio[cur] = pct_low--;
         pick = en[0];
         for (int i = 1; i < n; ++i)
             if (pct_prio[en[i]] > pct_prio[pick])
@@ -524,24 +526,25 @@ vs_block_until(int (*pred)(void*), void* arg, const char* label)
 }
 
 /* ------------------------------------------------------------------ virtual clock (1 tick = 1 us) */
-void clock_init(struct clock* c) { c->origin = ++now_ticks; }
+#define TICK() (now_ticks += (cfg.clock_step ? cfg.clock_step : 1))
+void clock_init(struct clock* c) { c->origin = TICK(); }
 void clock_shift_ms(struct clock* c, double ms) { c->origin = (uint64_t)((int64_t)c->origin + (int64_t)(ms * 1000.0)); }
 uint64_t
 clock_tic(struct clock* c)
 {
-    uint64_t t = ++now_ticks;
+    uint64_t t = TICK();
     if (c)
         c->origin = t;
     return t;
 }
-int64_t clock_toc(struct clock* c) { return (int64_t)(++now_ticks) - (int64_t)c->origin; }
+int64_t clock_toc(struct clock* c) { return (int64_t)(TICK()) - (int64_t)c->origin; }
 double clock_toc_ms(struct clock* c) { return (double)clock_toc(c) / 1000.0; }
 int8_t
 clock_cmp(struct clock* c, uint64_t ts)
 {
     return ts < c->origin ? -1 : ts > c->origin ? 1 : 0;
 }
-int8_t clock_cmp_now(struct clock* c) { return clock_cmp(c, ++now_ticks); }
+int8_t clock_cmp_now(struct clock* c) { return clock_cmp(c, TICK()); }
 void
 clock_sleep_ms(struct clock* c, float delay_ms)
 {
